@@ -19,7 +19,7 @@ pub fn check() -> Check {
         spec: CheckSpec {
             id: "C10",
             level: "exploration",
-            rule: "one case = one scenario against a child process running the real Server over a real store: 1-4 hostile connections at once, each sending a stream of one attack class (random bytes; valid non-array frames; unknown / lower-case commands; wrong argument counts naming keys of the control traffic; non-UTF-8 keys; integers, nulls and nested arrays as arguments; truncated frames followed by close or by silence; arrays nested 10^2..10^6 deep; lengths 2^63-1, 2^64+5, negative, lone signs; a well-formed prefix followed by garbage; thousands of tiny frames; a command that makes the connection's own handler task panic), while 1-2 control connections run a model-checked SET/GET/DEL workload (C06's oracle, byte-exact replies). Oracle: the server process is alive afterwards; every control reply was right; a fresh connection is served; the store, dumped through the control channel, equals the model, which is changed only by well-formed SET/DEL (control traffic plus the well-formed commands inside hostile streams, on their own keys). Non-trivial = a scenario whose control connections verified commands while attacks were running; distinct = by (attack classes, payload hash).",
+            rule: "one case = one scenario against a child process running the real Server over a real store: 1-4 hostile connections at once, each sending a stream of one attack class (random bytes; valid non-array frames; unknown / lower-case commands; wrong argument counts naming keys of the control traffic; non-UTF-8 keys; integers, nulls and nested arrays as arguments; truncated frames followed by close or by silence; arrays nested 10^2..10^6 deep; lengths 2^63-1, 2^64+5, negative, lone signs; a well-formed prefix followed by garbage; thousands of tiny frames; a command that makes the connection's own handler task panic), while 1-2 control connections run a model-checked SET/GET/DEL workload (C06's oracle, byte-exact replies). Oracle: the server process is alive afterwards; every control reply was right; a fresh connection is served; the store, dumped through the control channel, equals the model, which is changed only by well-formed SET/DEL (control traffic plus the well-formed commands inside hostile streams, on their own keys). Non-trivial = a scenario whose control connections verified commands while attacks were running; distinct = by (attack classes, payload hash). Every eighth scenario ends with an interlude in which every connection slot is taken by a live connection, 1-3 hostile peers connect, write and are reset (SO_LINGER 0) while they still wait in the listen backlog, and the slots are then freed so that the listener accepts sockets that are already dead; the server must still be running and serve a fresh connection.",
             assumptions: vec!["memory exhaustion by streaming gigabytes is not attempted", "the handler-panic attack uses the harness's storage wrapper (serve.rs: PanickyKv), which is the real handle plus a trigger; everything from the socket to the handler is the real code"],
             death_is_violation: false,
         },
@@ -253,6 +253,47 @@ struct Env {
     atk_model: HashMap<Vec<u8>, Vec<u8>>,
     atk_keys: std::collections::BTreeSet<Vec<u8>>,
     counter: u64,
+    max_conn: usize,
+}
+
+/// A peer that is reset while it still waits in the listen backlog: every slot is taken by a live
+/// connection, the hostile peer connects (the kernel completes the handshake), writes, and closes
+/// with SO_LINGER 0 so that a RST goes out; then one slot is freed and the listener accepts a socket
+/// that is already dead. Returns false if the slots could not all be taken (interlude skipped).
+fn reset_in_backlog(port: u16, max_conn: usize, r: &mut Rng) -> bool {
+    use std::os::unix::io::AsRawFd;
+    let mut fillers: Vec<(std::net::TcpStream, Rx)> = Vec::new();
+    for i in 0..max_conn {
+        let s = match connect(port) {
+            Ok(s) => s,
+            Err(_) => return false,
+        };
+        let mut t = match s.try_clone() {
+            Ok(t) => t,
+            Err(_) => return false,
+        };
+        let mut rx = Rx::new(s);
+        if t.write_all(&command(&[b"GET", format!("filler-{}", i).as_bytes()])).is_err() || rx.reply(Instant::now() + Duration::from_secs(3)).is_err() {
+            return false;
+        }
+        fillers.push((t, rx));
+    }
+    for _ in 0..r.range(1, 3) {
+        if let Ok(mut a) = connect(port) {
+            let _ = a.write_all(*r.pick(&[&b"garbage\r\n"[..], &b"*1\r\n$4\r\nPING\r\n"[..], &b""[..], &b"*2\r\n$3\r\nGET\r\n$1\r\nk\r\n"[..]]));
+            let lg = libc::linger { l_onoff: 1, l_linger: 0 };
+            unsafe { libc::setsockopt(a.as_raw_fd(), libc::SOL_SOCKET, libc::SO_LINGER, &lg as *const _ as *const libc::c_void, std::mem::size_of::<libc::linger>() as libc::socklen_t) };
+            drop(a);
+        }
+    }
+    std::thread::sleep(Duration::from_millis(r.range(5, 30)));
+    // free the slots one by one: the listener now accepts the dead sockets
+    while let Some(f) = fillers.pop() {
+        drop(f);
+        std::thread::sleep(Duration::from_millis(r.range(0, 10)));
+    }
+    std::thread::sleep(Duration::from_millis(50));
+    true
 }
 
 fn new_env(ctx: &Ctx, gen: u64, r: &mut Rng) -> Result<Env, String> {
@@ -265,7 +306,7 @@ fn new_env(ctx: &Ctx, gen: u64, r: &mut Rng) -> Result<Env, String> {
     // never served
     let max_conn = *r.pick(&[8usize, 8, 12]);
     let srv = Server::spawn(&dir, &conf, max_conn, 2, &[])?;
-    Ok(Env { srv, ctl_models: vec![HashMap::new(), HashMap::new()], atk_model: HashMap::new(), atk_keys: Default::default(), counter: 0 })
+    Ok(Env { srv, ctl_models: vec![HashMap::new(), HashMap::new()], atk_model: HashMap::new(), atk_keys: Default::default(), counter: 0, max_conn })
 }
 
 fn ctl_pool(i: usize) -> Vec<Vec<u8>> {
@@ -373,6 +414,15 @@ fn worker(ctx: &Ctx, out: &mut Out) {
                     }
                     Cmd::Del(ks) => env.atk_keys.extend(ks.iter().cloned()),
                 }
+            }
+        }
+        // every eighth scenario ends with peers that are reset while they wait in the listen backlog
+        if case % 8 == 3 && env.srv.ended().is_none() {
+            if reset_in_backlog(port, env.max_conn, &mut r) {
+                out.count("interludes_with_peers_reset_in_the_backlog", 1);
+                classes.push("reset-in-backlog");
+            } else {
+                out.count("backlog_interludes_skipped_slots_not_free", 1);
             }
         }
         // verdicts
